@@ -81,7 +81,7 @@ class FilesPart(Part):
 
     def cases(self):
         out = []
-        salts = ["saltForTest", "seed%d" % self.seed]
+        salts = ["saltForTest", "seed%d" % self.seed, ""]
         for B in ([0, 8] if self.tier == "quick" else [0, 1, 8, 17, 32]):
             for salt in salts:
                 for nets in (None, ["10.129.0.0/16"]):
